@@ -177,7 +177,10 @@ def _gen_kind(rng, w, names, k):
         if not cands:
             return None
         i = rng.choice(sorted(cands))
-        return {"op": k, "path": w.path(i)}
+        op = {"op": k, "path": w.path(i)}
+        if k == "unversion" and rng.random() < 0.5:
+            op["api"] = "unversion"  # MutableTree.unversion([path]) instead of remove(keep_files=True)
+        return op
     if k == "delete_disk":
         cands = [w.path(i) for i in _versioned(w, ("file", "symlink"))]
         # a whole versioned directory vanishing from disk (no unversioned content inside, not kind-changed)
@@ -244,7 +247,11 @@ def apply_real(wt, op, use_ids=None):
     elif k == "remove":
         wt.remove([op["path"]], keep_files=False, force=True)
     elif k == "unversion":
-        wt.remove([op["path"]], keep_files=True)
+        if op.get("api") == "unversion":
+            with wt.lock_tree_write():
+                wt.unversion([op["path"]])
+        else:
+            wt.remove([op["path"]], keep_files=True)
     elif k == "delete_disk":
         _rm(os.path.join(base, op["path"]))
     elif k == "kindchange":
